@@ -13,6 +13,9 @@ Oracle (deterministic):
            enableRemote/disableLocal/disableRemote` is triggered by data, `dataReceived` raises
            nothing, and the receiver writes nothing back (a reply means data was taken as a command).
 
+writeSequence is given, depending on the content, a list, tuple, generator, list iterator or map object
+(ITransport.writeSequence accepts any iterable, one-shot ones included) in every family.
+
 Guards against false alarms: inputs never contain CR (the statement excludes it; telnet.write does
 not produce CR NUL); nothing is asserted about how `dataReceived` chunks the data, only the
 concatenation; per-call wire deltas are used only to *classify* a failure, not to decide it.
@@ -38,10 +41,31 @@ SHARDS = {"quick": 4, "thorough": 16}
 FLOORS = {"peer_comparisons": 2000, "wire_checks": 200, "iac_data_bytes": 500, "lf_data_bytes": 300,
           "writesequence_calls": 100, "splits_inside_escape_pair": 200,
           "session_peer_comparisons": 2000, "session_commands_sent": 1000, "echo_comparisons": 2000, "refusals_observed": 500,
-          "session_commands_option_0xff": 100, "session_commands_option_command_valued": 200}
+          "writesequence_one_shot_iterables": 2000, "session_commands_option_0xff": 100, "session_commands_option_command_valued": 200}
 READY = True
 
 KNOWN_WS = "telnet-writesequence-unescaped"
+
+
+SEQFORMS = ("list", "tuple", "generator", "iter", "map")
+_seqform_counts = {}
+
+
+def seqform(parts):
+    """The same elements as a list, tuple, generator, list iterator or map object - ITransport.writeSequence
+    takes any iterable, one-shot ones included.  The form is a function of the content (replayable)."""
+    parts = list(parts)
+    form = SEQFORMS[(len(parts) + sum(len(x) for x in parts) + (parts[0][0] if parts and parts[0] else 0)) % len(SEQFORMS)]
+    _seqform_counts[form] = _seqform_counts.get(form, 0) + 1
+    if form == "list":
+        return parts
+    if form == "tuple":
+        return tuple(parts)
+    if form == "generator":
+        return (x for x in parts)
+    if form == "iter":
+        return iter(parts)
+    return map(bytes, parts)
 
 
 def enc(data):
@@ -140,7 +164,7 @@ def make_side():
                 if len(data) % 2:
                     self.transport.write(data)
                 else:
-                    self.transport.writeSequence([data[:1], data[1:]])
+                    self.transport.writeSequence(seqform([data[:1], data[1:]]))
 
         def unhandledCommand(self, command, argument):
             self.events.append(("unhandledCommand", command, argument))
@@ -177,7 +201,7 @@ def send(ops):
         if kind == "write":
             t.protocol.transport.write(arg)
         else:
-            t.protocol.transport.writeSequence(list(arg))
+            t.protocol.transport.writeSequence(seqform(arg))
         deltas.append(bytes(tr.written[before:]))
     return bytes(tr.written), deltas, t.protocol.events + [("sender-got-data", g) for g in t.protocol.got]
 
@@ -350,7 +374,7 @@ def session_case(ctx, ops, rng, cuts=None):
         if o[0] == "write":
             a.protocol.transport.write(o[1])
         elif o[0] == "seq":
-            a.protocol.transport.writeSequence(list(o[1]))
+            a.protocol.transport.writeSequence(seqform(o[1]))
         elif o[0] == "neg":
             a.requestNegotiation(o[1], o[2])
             expected.append(("unhandledSubnegotiation", o[1]))
@@ -428,7 +452,7 @@ def session_case(ctx, ops, rng, cuts=None):
             if o[0] == "write":
                 a.protocol.transport.write(o[1])
             elif o[0] == "seq":
-                a.protocol.transport.writeSequence(list(o[1]))
+                a.protocol.transport.writeSequence(seqform(o[1]))
             elif o[0] == "neg":
                 a.requestNegotiation(o[1], o[2])
             else:
@@ -437,6 +461,16 @@ def session_case(ctx, ops, rng, cuts=None):
 
 
 def run(ctx):
+    try:
+        _run(ctx)
+    finally:
+        for form, n in _seqform_counts.items():
+            ctx.count("writesequence_form_" + form, n)
+        ctx.count("writesequence_one_shot_iterables", sum(n for f, n in _seqform_counts.items() if f in ("generator", "iter", "map")))
+        _seqform_counts.clear()
+
+
+def _run(ctx):
     for i in ctx.cases(2000, 80000):
         rng = ctx.case_rng("session", i)
         session_case(ctx, gen_session(rng, rng.choice((rng.randint(1, 10), rng.randint(5, 60), rng.randint(60, 600)))), rng)
